@@ -36,10 +36,10 @@ def genC15 (tier : Tier) (seed : Nat) (o : Out) : IO Unit := do
   for (name, fs) in crossFileErrors do
     let idx := List.range fs.length
     o.line (permCase ("cross-" ++ name) "-" (fs.map txt) (permsOf idx) (if name == "shadow" then "accepted" else "rejected"))
-  -- the key clash between a nested module and a definition (D-15a): the property demands one verdict for all orders
-  o.line (permCase "known-d15a" "-"
+  -- the key clash between a nested module and a definition (D-15a, repaired in /repo: reported as a redefinition in every order)
+  o.line (permCase "d15a-key-clash" "-"
     [txt (sFile "A::B" [.struct [] [] false "X" []]), txt (sFile "A" [.struct [] [] false "B" [], .struct [] [] false "U" [fld "b" (tr "B")]])]
-    [[0, 1], [1, 0]] "accepted")
+    [[0, 1], [1, 0]] "rejected")
   -- generated valid programs, all permutations of up to 4 files
   let nProg := if tier == .thorough then 3000 else 300
   let mut r := Rng.mk' (seed + 15)
